@@ -10030,13 +10030,15 @@ class Format_Item_List(SequenceBase):  # pylint: disable=invalid-name
                 line, repmap = string_replace_map(current_string)
                 match = re.search("[,/:]", line)
                 if match:
-                    item_list.append(Format_Item(repmap(line[: match.start()])))
+                    item_list.append(
+                        Format_Item(repmap(line[: match.start()]).rstrip())
+                    )
                     current_string = repmap(line[match.start() :])
                     if match.group() == ",":
                         # skip the comma
                         current_string = current_string[1:].lstrip()
                 else:
-                    item_list.append(Format_Item(repmap(line)))
+                    item_list.append(Format_Item(repmap(line).rstrip()))
                     current_string = ""
         return ",", tuple(item_list)
 
